@@ -39,13 +39,18 @@ META = {
                   "random states), min_int and allow_resets are pushed through the real transform, the device transform and "
                   "default.qubit; the monitored manager, the output-tape replay and a Kraus density-matrix simulation decide.",
     "level_note": "Gate matrices for the simulation come from the documented-formula table (pv.ref). No conditionals / mid-circuit "
-                  "measurement statistics are generated (only resets), so R-BR reduces to a density-matrix simulation with the reset "
-                  "channel. Magic-state allocation is rejected by the transform by design and only probed for that rejection. "
-                  "AllocationError is a legal outcome (counted as rejection; an independent count model notes unexpected ones).",
+                  "measurement statistics are generated (only user and allocator resets), so R-BR reduces to a density-matrix simulation "
+                  "with the reset channel. Half of the tapes are built through the public explicit API (qp.allocate / qp.deallocate under "
+                  "an AnnotatedQueue), half from Allocate/Deallocate instructions; the context-manager form (strictly nested scopes) is a "
+                  "special case of the generated histories and is not generated separately. Magic-state allocation is rejected by the "
+                  "transform by design and only probed for that rejection. AllocationError is a legal outcome (rejection; an independent "
+                  "count model of the documented procedure notes unexpected ones in evidence). Static wires = wires that really occur in "
+                  "the circuit. Device path: default.qubit with wires=None / explicit wires and mcm_method in {default, deferred, "
+                  "tree-traversal}, histories without user resets only.",
     "shards": {"quick": 4, "thorough": 8},
     "budget_s": {"quick": 45, "thorough": 230},
-    "min_evals": {"quick": 2000, "thorough": 50000},
-    "min_nontrivial": {"quick": 60, "thorough": 1500},
+    "min_evals": {"quick": 20000, "thorough": 300000},
+    "min_nontrivial": {"quick": 300, "thorough": 4000},
     "deciding": ["wiremgr.invariant", "alloc.output", "alloc.zero_state", "alloc.equivalence"],
     "allow_rejections": True,
     "rule": "case = (allocation history, registers, min_int, allow_resets); distinct = fingerprint of the program and the settings; "
@@ -988,7 +993,7 @@ def run(ctx):
     try:
         if ctx.only_case is None:
             negative_cases(ctx, qp, ctx.rng)
-        N = ctx.n(2400, 60000)
+        N = ctx.n(6000, 120000)
         for local in range(N):
             idx = local * ctx.nshards + ctx.shard
             if ctx.only_case is not None and idx != ctx.only_case:
